@@ -63,7 +63,8 @@ def render_thermochem(g, pres=None, indent=12):
         return '%s %s' % (num(T / how[2]), how[1])
 
     tp = pres.get('T', ('unit', 'K', 1.0))
-    lines.append('%sT_ref: %s' % (pad, temp(g['T_ref'], tp)))
+    if not (pres.get('omit_T_ref') and g['T_ref'] == 298.15):
+        lines.append('%sT_ref: %s' % (pad, temp(g['T_ref'], tp)))
     if g.get('H') is not None:
         hp = pres.get('H', ('nd',))
         if hp[0] == 'nd':
@@ -103,6 +104,8 @@ def render_thermochem(g, pres=None, indent=12):
         rp = pres.get('range', tp)
         lines.append('%srange: [%s, %s]' % (pad, temp(g['range'][0], rp),
                                             temp(g['range'][1], rp)))
+    if not lines:     # an empty block would be YAML null, not a mapping
+        lines.append('%sT_ref: %s' % (pad, temp(g['T_ref'], tp)))
     return '\n'.join(lines)
 
 
